@@ -219,6 +219,29 @@ func (r *report) replayAll(work string) {
 	if bin == "" {
 		return
 	}
+	// Go randomises the iteration order of maps per run; the engine explored one particular order
+	// (or, with PermuteMaps, all of them). A counterexample that depends on that order is replayed
+	// again (a fresh process each time) until the native run happens to take it, up to 12 times.
+	for attempt := 0; attempt < 12 && len(files) > 0; attempt++ {
+		if attempt > 0 {
+			var again []string
+			for _, f := range files {
+				if v := byFile[f]; !v.Reproduced && !strings.HasPrefix(v.Detail, "replay") {
+					again = append(again, f)
+				}
+			}
+			files = again
+		}
+		r.replayOnce(bin, files, byFile)
+	}
+	for _, v := range r.viols {
+		if !v.Reproduced {
+			r.incon = append(r.incon, fmt.Sprintf("%s/%s: solver model did not reproduce natively (engine-mismatch) %s replay=%s", v.Job.ID, v.Label, v.Detail, v.ReplayPath))
+		}
+	}
+}
+
+func (r *report) replayOnce(bin string, files []string, byFile map[string]*violation) {
 	// batches keep the command line short
 	for lo := 0; lo < len(files); lo += 50 {
 		hi := lo + 50
@@ -253,11 +276,6 @@ func (r *report) replayAll(work string) {
 					v.Detail = "native run panicked: " + ro.Panicked
 				}
 			}
-		}
-	}
-	for _, v := range r.viols {
-		if !v.Reproduced {
-			r.incon = append(r.incon, fmt.Sprintf("%s/%s: solver model did not reproduce natively (engine-mismatch) %s replay=%s", v.Job.ID, v.Label, v.Detail, v.ReplayPath))
 		}
 	}
 }
@@ -313,6 +331,9 @@ func (r *report) conformance(sel []sym.Job, results []*sym.JobResult, work strin
 		var engObs []string
 		if len(jr.Observations) == 1 {
 			for _, o := range jr.Observations[0] {
+				if strings.HasPrefix(o.Name, "log.") {
+					continue // the engine's log model notes that logging happened; the native build writes to stderr
+				}
 				engObs = append(engObs, o.Name+"="+o.Val)
 			}
 		}
